@@ -364,7 +364,9 @@ func corpusDocs() []interface{} {
 // delicate literals behind the long members (long plain strings are cheap for coqc, long lists are not)
 func bigDocs() []interface{} {
 	// long members are kept under 3000 characters each: coqc overflows its stack on much longer literals
-	pad := func(c byte, i int) string { return strings.Repeat(string([]byte{c, 'x', 'y', 'z', ' ', byte('0' + i%10), '1'}), 400) }
+	pad := func(c byte, i int) string {
+		return strings.Repeat(string([]byte{c, 'x', 'y', 'z', ' ', byte('0' + i%10), '1'}), 400)
+	}
 	bigObj := obj{}
 	bigArr := arr{}
 	for i := 0; i < 26; i++ {
